@@ -141,6 +141,27 @@ def _check_chunk(cases):
                                 if prev is not None and not math.isnan(prev[k]) and x < prev[k] - 1e-9:
                                     bad("ens:quantile", "quantiles of ensemble %r decrease with the level: %r then %r" % (c["ens"][k], prev[k], x))
                         prev = [float(v) for v in got]
+                    # the same two ensembles in a RAGGED file: lead times 0 and 6 h x two stations, but only (0 h, station 1) and (6 h, station 2)
+                    # have a row -- the two combinations without a row are missing, for every field derived from the members (after seed C04-i)
+                    rag = {"times": [1325376000], "leads": [0, 6], "locs": [1, 2], "lat": [50, 51], "lon": [10, 10], "elev": [0, 0], "hasObs": True,
+                           "hasFcst": False, "obs": [1, 0, 0, 2], "members": list(range(len(e1))),
+                           "ens": list(e1) + [0] * len(e1) + [0] * len(e1) + list(e2), "absentRows": [[1, 1, 2], [1, 2, 1]]}
+                    mat.write_text(path, rag)
+                    fields = [("P(X<=%r)" % (t,), verif.field.Threshold(num(t))) for t in c["thresholds"][:2]]
+                    fields += [("quantile 0.5", verif.field.Quantile(0.5)), ("member 0", verif.field.Ensemble(0))]
+                    for label, field in fields:
+                        data = verif.data.Data([verif.input.get_input(path)])
+                        got = np.asarray(np.ma.filled(data.get_scores(field, 0, verif.axis.All(), None), np.nan), float).reshape(-1)
+                        n += 1
+                        if len(got) != 4 or not (math.isnan(got[1]) and math.isnan(got[2])):
+                            bad("ens:absent-row", "%s derived from the members of a file in which (0 h, station 2) and (6 h, station 1) have no row: "
+                                "expected missing there, observed %r" % (label, got.tolist()))
+                    for j, t in enumerate(c["thresholds"][:2]):
+                        data = verif.data.Data([verif.input.get_input(path)])
+                        got = np.asarray(data.get_scores(verif.field.Threshold(num(t)), 0, verif.axis.All(), None), float).reshape(-1)
+                        if len(got) == 4:
+                            cmp("ens:eventprob", "P(X<=%r) from ensemble %r (ragged file)" % (t, c["ens"][0]), num(c["prob"][0][j]), got[0], rtol=2e-6)
+                            cmp("ens:eventprob", "P(X<=%r) from ensemble %r (ragged file)" % (t, c["ens"][1]), num(c["prob"][1][j]), got[3], rtol=2e-6)
                 elif c["kind"] == "pit":
                     rows = [[0.5, v] for v in c["pit"]]
                     inp = _file_input(rows, {"obs": 0, "pit": 1})
